@@ -1,5 +1,5 @@
 (* C08 -- property theorems only. *)
-From Coq Require Import Reals ZArith List Bool.
+From Coq Require Import Reals ZArith List Bool Lra.
 From Coquelicot Require Import Coquelicot.
 From WNTRV Require Import Lib.ExprR Gen.Formulas Lib.Spline Lib.SplineMono Lib.Sched C08.Model C08.Proofs C08.Mono.
 Local Open Scope R_scope.
@@ -28,6 +28,16 @@ Proof. exact lm2_half_secant. Qed.
 Theorem C08_leak_monotone : forall area cd, 0 <= cd * area -> leak_box area cd ->
   forall p q, p <= q -> leak_rate area cd p <= leak_rate area cd q.
 Proof. exact leak_monotone. Qed.
+(* a leak of 1 cm2 with discharge coefficient 0.75 satisfies the premise of the monotonicity theorem *)
+Example C08_leak_box_typical : 0 <= 3 / 4 * (1 / 10000) /\ leak_box (1 / 10000) (3 / 4).
+Proof.
+  split; [lra|]. unfold leak_box, lsec, lf2, lslope, ldelta, c_leak_slope, c_leak_delta.
+  assert (H : 1 / 25 <= sqrt (2 * (981 / 100) * (0 + 1 / 10000))).
+  { replace (1 / 25) with (sqrt ((1 / 25) * (1 / 25))) by (rewrite sqrt_square; lra). apply sqrt_le_1_alt. lra. }
+  replace (0 + 1 / 10000 - 0) with (1 / 10000) by lra.
+  assert (3 / 4 * (1 / 10000) * (1 / 25) <= 3 / 4 * (1 / 10000) * sqrt (2 * (981 / 100) * (0 + 1 / 10000))) by (apply Rmult_le_compat_l; lra).
+  lra.
+Qed.
 Theorem C08_leak_start_fires : forall start cur prev,
   (prev < start <= cur)%Z -> eval_sim Req start 0 cur prev = (true, (cur - start)%Z).
 Proof. exact leak_start_fires. Qed.
